@@ -3,6 +3,7 @@ C14 — Chunk buffers are handed over exclusively between worker and I/O thread.
 -/
 import Wencry.Proofs.PipeCtl
 import Wencry.Proofs.PipeData
+import Wencry.Proofs.PipeSpurious
 namespace Wencry.Props.C14
 open Wencry Wencry.Model.Pipe Wencry.Model.IoBuffer Wencry.Proofs.PipeCtl Wencry.Proofs.PipeProgress Wencry.Proofs.PipeData
 
@@ -34,5 +35,28 @@ theorem each_chunk_to_its_owner_in_order (f : σ → Block → σ × Block) (inp
     (hP : FirstNonFull inp P) (ws0 : Nat → σ) (s : St σ) (h : Reach f inp ispad T ws0 s) (hd : allDone T s) (i : Nat) (hi : i < T) :
     s.log.filter (fun e => e.1 = i) = workerLog inp T (nChunks inp P) i :=
   (final_output f inp hwf ispad P T hT hP ws0 s h hd).2 i hi
+
+/-! ### The same with spurious wake-ups (Model/PipeSpurious.lean) -/
+section spurious
+open Wencry.Model.PipeSpurious
+
+/-- ownership in both directions on every state reachable under any schedule and any pattern of spurious wake-ups -/
+theorem exclusive_access_with_spurious_wakeups (f : σ → Block → σ × Block) (inp : Input) (hwf : inp.WF) (ispad : Bool) (P T : Nat)
+    (hT : 0 < T) (hP : FirstNonFull inp P) (ws0 : Nat → σ) (s : St σ) (h : ReachS f inp ispad T ws0 s) (i : Nat) (hi : i < T) :
+    ((s.wpc i = .process ∨ s.wpc i = .fetch2 ∨ (s.wpc i = .fetch ∧ (s.buf i).st ≠ .inv)) → (s.buf i).st = .ready ∧ ¬ ioIn s i) ∧
+    (ioIn s i → ((s.buf i).st = .empty ∨ (s.buf i).st = .updating) ∧
+      (s.wpc i = .initWait ∨ s.wpc i = .initSleep ∨ s.wpc i = .waitRdy ∨ s.wpc i = .sleepRdy)) :=
+  Proofs.PipeSpurious.ownership_S f inp hwf ispad P T hT hP ws0 s h i hi
+
+theorem no_overlapping_access_with_spurious_wakeups (f : σ → Block → σ × Block) (inp : Input) (hwf : inp.WF) (ispad : Bool) (P T : Nat)
+    (hT : 0 < T) (hP : FirstNonFull inp P) (ws0 : Nat → σ) (s : St σ) (h : ReachS f inp ispad T ws0 s) : s.viol = false :=
+  Proofs.PipeSpurious.no_violation_S f inp hwf ispad P T hT hP ws0 s h
+
+theorem each_chunk_to_its_owner_in_order_with_spurious_wakeups (f : σ → Block → σ × Block) (inp : Input) (hwf : inp.WF) (ispad : Bool)
+    (P T : Nat) (hT : 0 < T) (hP : FirstNonFull inp P) (ws0 : Nat → σ) (s : St σ) (h : ReachS f inp ispad T ws0 s) (hd : allDone T s)
+    (i : Nat) (hi : i < T) : s.log.filter (fun e => e.1 = i) = workerLog inp T (nChunks inp P) i :=
+  (Proofs.PipeSpurious.final_output_S f inp hwf ispad P T hT hP ws0 s h hd).2 i hi
+
+end spurious
 
 end Wencry.Props.C14
